@@ -1,6 +1,7 @@
 (* C08 — WHERE, HAVING and IN-subquery filters keep exactly the matching rows. *)
 From Coq Require Import QArith.
-From Zeno Require Import Base Sort Expr ExprSpec DB DBP.
+From Coq Require Import List.
+From Zeno Require Import Base Sort Expr ExprSpec DB DBP Filter FilterP.
 Local Open Scope Z_scope.
 
 (* a query with WHERE returns what the same query returns when only the matching points had been inserted *)
@@ -12,6 +13,22 @@ Theorem C08_where_groups : forall T q pts,
   groups T q pts = groups T (without_where q) (filter (flag (q_where q)) pts).
 Proof. exact groups_where. Qed.
 
+(* HAVING: the specification the real database is compared with (rows of the HAVING-free query filtered on the output
+   value) keeps exactly the rows that satisfy the predicate, in the order of the HAVING-free result, and complementary
+   predicates split the result without loss or overlap *)
+Theorem C08_having_exact : forall idx c bound rows r,
+  In r (having_spec idx c bound rows) <-> In r rows /\ hsat c (nth idx (o_vals r) 0%Q) bound = true.
+Proof. exact having_exact. Qed.
+Theorem C08_having_is_a_subsequence : forall idx c bound rows,
+  exists keep, having_spec idx c bound rows = map snd (filter fst (combine keep rows)) /\ length keep = length rows.
+Proof. exact having_subsequence. Qed.
+Theorem C08_having_idempotent : forall idx c bound rows,
+  having_spec idx c bound (having_spec idx c bound rows) = having_spec idx c bound rows.
+Proof. exact having_idempotent. Qed.
+Theorem C08_having_partition : forall idx bound rows,
+  (length (having_spec idx HGt bound rows) + length (having_spec idx HLe bound rows) = length rows)%nat.
+Proof. exact having_partition. Qed.
+
 Example C08_nonvacuous :
   let T := {| t_fields := [(0, EAgg SUM (EField 9))]; t_groupby := None; t_res := 2; t_ret := 100; t_where := None |} in
   let q := {| q_fields := None; q_groupby := None; q_period := 0; q_asof := 0; q_until := 0; q_where := Some 0%nat; q_now := 20; q_vis := None; q_limit := None |} in
@@ -21,3 +38,7 @@ Proof. vm_compute. reflexivity. Qed.
 
 Print Assumptions C08_where.
 Print Assumptions C08_where_groups.
+Print Assumptions C08_having_exact.
+Print Assumptions C08_having_is_a_subsequence.
+Print Assumptions C08_having_idempotent.
+Print Assumptions C08_having_partition.
